@@ -34,6 +34,8 @@ DOMS = {
     "Rot_t": L.Rot(L.SQ, L.aff(0, t=1)),
     "Cut_t": L.Cut(L.SQ, L.G_CMOVE, contained=True),
     "Int_t": L.N(L.C_GROW, L.SQ),
+    "U_ov": L.U(L.SQ, L.G_C),                     # overlapping union (grid points of A inside B are replaced)
+    "U_ov_t": L.U(L.SQ_MOVE, L.G_C),
     "dC_t": L.B(L.C_MOVE),
     "dCut_t": L.B(L.Cut(L.SQ, L.G_CMOVE, contained=True)),
     "dI_t": L.B(L.I(0, L.aff(1, t=1))),
